@@ -48,6 +48,8 @@ type Config struct {
 	// SliceInvariant: values of this (named slice) type always have exactly n non-nil elements (established by a
 	// constructor-shape rule checked elsewhere).
 	SliceInvariant func(t types.Type) (n int64, elemsNonNil bool, ok bool)
+	// StrictLen: in these functions a slice expression must stay within the operand's length, not merely its capacity.
+	StrictLen func(fn *ssa.Function) bool
 	// FieldNonNil: loads of this struct field always yield a non-nil value (same provenance).
 	FieldNonNil func(owner types.Type, idx int) bool
 	// ExtraAssume lets a property accept named obligations (key -> reason).
